@@ -128,6 +128,9 @@ class Cond:
         return hash(self.key())
 
     def __repr__(self):
+        if self.op in ("==", "!=") and isinstance(self.x, Rat):
+            a, b = repr(self.x), repr(-self.x)        # x == 0 and -x == 0 are the same condition: one text
+            return f"[{min(a, b)} {self.op} 0]"
         return f"[{self.x!r} {self.op} 0]" if self.op in ("<", "<=", "==", "!=") else f"[{self.op} {srepr(self.x)}]"
 
 
@@ -658,7 +661,7 @@ class Evaluator:
 
 
     # ---------------------------------------------------------------- canonical iteration
-    def iter_binding(self, iter_node, target, env, ctx):
+    def iter_binding(self, iter_node, target, env, ctx, body=None):
         """Canonical loop binding.  `for k, v in d.items()`, `for k in d` / `d.keys()` + `d[k]`, `for v in d.values()`,
         `for i, x in enumerate(s)`, `for i in range(len(s))` all iterate the container `d` / `s`: the key (or index)
         variable is loopvar(iter(d)) and the element is d[key].  Returns (it_term, bindings dict)."""
@@ -707,7 +710,25 @@ class Evaluator:
         else:
             # plain `for x in c`: x is the key if c is used as a mapping (c[x]) in the body, else the element; both
             # readings are represented by the same atom so that `c[x]` and the element stay distinct but canonical
-            if isinstance(target, ast.Name):
+            # A sequence iterated directly yields its ELEMENTS: `for x in s` is `for i in range(len(s)): x = s[i]`, so x
+            # is s[loopvar] - unless s is a mapping (declared type, or the body subscripts s with x), whose plain
+            # iteration yields keys, or a literal / comprehension, whose elements are the loop variable itself.
+            as_key = isinstance(cv, (Seq, Tup))
+            if not as_key and isinstance(cv, Rat) and cv.single_atom() is not None:
+                t = self._atom_type(cv.single_atom(), ctx)
+                if isinstance(t, tuple) and t and t[0] == "map":
+                    as_key = True
+            if not as_key and isinstance(target, ast.Name) and body is not None:
+                ctext = ast.unparse(cont)
+                for b in body:
+                    for x in ast.walk(b):
+                        if isinstance(x, ast.Subscript) and isinstance(x.slice, ast.Name) and x.slice.id == target.id \
+                                and ast.unparse(x.value) == ctext:
+                            as_key = True
+            if not as_key and isinstance(cv, Rat) and cv.single_atom() is not None and isinstance(cv.single_atom(), tuple) \
+                    and cv.single_atom()[0] in ("sym", "attr", "idx", "afterloop", "m", "call", "prop"):
+                self._bind_pattern(target, elem, binds)
+            elif isinstance(target, ast.Name):
                 binds[target.id] = Rat.atom(("loopvar", it_term))
             else:
                 self._bind_pattern(target, Rat.atom(("loopvar", it_term)), binds)
@@ -772,7 +793,7 @@ class Evaluator:
 
     def _exec_for(self, st: ast.For, conds, env, ctx):
         """Accumulation loops: `for x in it: acc += f(x)` (one or more accumulators, optional filter `if`)."""
-        it_term, binds = self.iter_binding(st.iter, st.target, env, ctx)
+        it_term, binds = self.iter_binding(st.iter, st.target, env, ctx, body=st.body)
         lv_env = dict(env)
         lv_env.update(binds)
         names = list(binds)
@@ -1476,7 +1497,7 @@ class Evaluator:
         if len(node.generators) != 1:
             raise Unreadable("nested comprehension")
         g = node.generators[0]
-        it_term, binds = self.iter_binding(g.iter, g.target, env, ctx)
+        it_term, binds = self.iter_binding(g.iter, g.target, env, ctx, body=[node.elt] + list(g.ifs))
         e2 = dict(env)
         e2.update(binds)
         filt = frozenset()
@@ -1861,8 +1882,14 @@ class Evaluator:
                 for k_, v in kw.items():
                     bound[params.index(k_) if k_ in params else k_] = v
                 # canonical in parameter names: arguments are identified by position
-                return [(frozenset(), Rat.atom(("call", f.qualname) + tuple((k_, as_term(v)) for k_, v in
-                                                                             sorted(bound.items(), key=lambda kv: str(kv[0])))))]
+                cat = Rat.atom(("call", f.qualname) + tuple((k_, as_term(v)) for k_, v in
+                                                             sorted(bound.items(), key=lambda kv: str(kv[0]))))
+                n_ret = _tuple_arity(f)
+                if n_ret:
+                    # the callee returns an n-tuple on every path: `return g(...)` and `a, b = g(...); return a, b` agree
+                    ct = as_term(cat)
+                    return [(frozenset(), Tup([Rat.atom(("item", ct, i)) for i in range(n_ret)]))]
+                return [(frozenset(), cat)]
             return self.inline_alts(f, fv.selfv, fv.selfcls, pos, kw, ctx, node)
         if isinstance(fv, ClsRef):
             return [(frozenset(), self.construct(fv.cls, pos, kw, ctx))]
@@ -2079,6 +2106,29 @@ def _maybe_none(v) -> bool:
         a = v.single_atom()
         return isinstance(a, tuple) and a[0] in ("sym", "attr", "idx", "item", "call", "m", "loopvar")
     return False
+
+
+_ARITY: Dict[int, int] = {}
+
+
+def _tuple_arity(f: FuncInfo) -> int:
+    """n when every `return` of f (nested functions aside) is a tuple display of the same length n >= 2, else 0."""
+    k = id(f.node)
+    if k in _ARITY:
+        return _ARITY[k]
+    lens = set()
+    stack = list(f.node.body)
+    while stack:
+        n = stack.pop()
+        if isinstance(n, (ast.FunctionDef, ast.AsyncFunctionDef, ast.Lambda, ast.ClassDef)):
+            continue
+        if isinstance(n, ast.Return):
+            lens.add(len(n.value.elts) if isinstance(n.value, ast.Tuple) and not any(isinstance(e, ast.Starred) for e in n.value.elts) else -1)
+        stack.extend(ast.iter_child_nodes(n))
+    r = lens.pop() if len(lens) == 1 else 0
+    r = r if r >= 2 else 0
+    _ARITY[k] = r
+    return r
 
 
 def _trivial_getter(f: FuncInfo):
